@@ -7,3 +7,10 @@ void free(void* p);
 void abort(void);
 int abs(int x);
 long labs(long x);
+
+#ifdef _MSC_VER
+/* the byte-swap intrinsics of the Microsoft C runtime, with their Windows prototypes (unsigned long is 32 bits there) */
+static inline unsigned short _byteswap_ushort(unsigned short v) { return __builtin_bswap16(v); }
+static inline unsigned long _byteswap_ulong(unsigned long v) { return (unsigned long)__builtin_bswap32((unsigned int)v); }
+static inline unsigned long long _byteswap_uint64(unsigned long long v) { return __builtin_bswap64(v); }
+#endif
